@@ -23,7 +23,7 @@ Silent  == l' = l /\ sil < MaxSilent /\ sil' = sil + 1
 TInit == s = S0 /\ l = 1 /\ sil = 0 /\ TLCSet(1, 1)
 
 TSilent == /\ Silent
-           /\ \/ (\E p \in Procs : UlCheck(p) \/ UlWrite(p) \/ UlGauge(p))
+           /\ \/ (\E p \in Procs : UlCheck(p) \/ UlWrite(p) \/ UlWriteFails(p) \/ UlGauge(p))
               \/ AccDecideDo \/ AccUnloaded \/ AccEnqDo
               \/ DestroyWaited \/ DestroyClose \/ DestroySignal
               \/ FPopDo \/ FPushDo \/ FCloseOutDo \/ FSaveLastSkip \/ FSaveOutDo \/ FSaveOutDone \/ FSaved
